@@ -49,8 +49,23 @@ Record obs1 := {
   o_bound : bool;                      (* agent.exp_layer is actor.get_output_dense() *)
   o_rows : nat; o_cols : nat;          (* agent.sigma_inv.shape *)
   o_sigma : option (list (list Q));    (* agent.sigma_inv (only at observed steps) *)
-  o_arms : list (list Q)               (* features of all arms at the NEXT decision (may be empty) *)
+  o_arms : list (list Q);              (* features of all arms at this decision (may be empty) *)
+  o_bonus : list Q                     (* gamma^-1 * exploration bonus the implementation used, per arm (may be empty) *)
 }.
+
+(* the bonus the implementation used, squared, against the radicand g^T S g computed by the model on the
+   matrix BEFORE the update:  | b^2 - g^T S g | <= tolb * (1 + g^T S g)   (b >= 0 is part of the claim) *)
+Definition check_bonus (tolb : bigQ) (Sbefore : list (list bigQ)) (ob : obs1) : bool :=
+  match o_bonus ob with
+  | [] => true
+  | bs =>
+      forallb2 (fun g b =>
+                  let r := Bquad Sbefore (map BigQ.of_Q g) in
+                  let bb := BigQ.of_Q b in
+                  bq_le B0 bb && bq_le B0 r &&
+                  qclose (BigQ.mul_norm tolb (BigQ.add_norm B1 r)) (BigQ.mul_norm bb bb) r)
+               (o_arms ob) bs
+  end.
 
 (* certificate state: Some A while sigma_inv is claimed to be the inverse of A = lam*I + sum v v^T *)
 Definition cert_step (lam : bigQ) (c : option (list (list bigQ))) (o : @op bigQ) : option (list (list bigQ)) :=
@@ -84,7 +99,9 @@ Fixpoint check_trace (lam tol : bigQ) (s : @bstate bigQ) (c : option (list (list
   | o :: ops', ob :: obs' =>
       let s' := Bstep s o in
       let c' := cert_step lam c o in
-      check_state lam tol s' c' ob && check_trace lam tol s' c' ops' obs'
+      check_state lam tol s' c' ob &&
+      (match o with Act _ => check_bonus (BigQ.of_Q (1 # 1024)) (sig s) ob | _ => true end) &&
+      check_trace lam tol s' c' ops' obs'
   | _, _ => false
   end.
 
